@@ -57,8 +57,9 @@ for d in sorted(glob.glob(os.path.join(HERE, "refactors", "*"))):
     rrows.append(f"| {os.path.basename(d)} | {what} | {stat} | {res} | {'quiet' if m.get('all_quiet') else '**ALARM**'} |")
 rtext = f"""### 11.2 Behaviour-preserving refactorings (false-alarm test)
 
-Five further sub-agents each produced two substantial behaviour-preserving refactorings of one area (replay buffers; DDPG/TD3/SAC
-loops; loggers/checkpointer/assessment; DQN family + tabular learners; TD7/MR.Q/multi-task), verified by them to be bit-identical on
+Eight further sub-agents each produced two substantial behaviour-preserving refactorings of one area (replay buffers; DDPG/TD3/SAC
+loops; loggers/checkpointer/assessment; DQN family + tabular learners; TD7/MR.Q/multi-task; PETS/ensemble/CEM/CMA-ES; on-policy
+collectors and updates; losses/embeddings/target updates/serialisation), verified by them to be bit-identical on
 fixed seeds. Each patch was applied to `/repo`, the listed quick checks were run (`tools/refactor_eval.py`), `/repo` restored.
 Required outcome: every check exits 0. Result: {sum(1 for r in rrows if 'quiet' in r)} of {len(rrows)} quiet. (The first evaluation of R1_2 raised `C01.a` in a
 multi-task plan — a harness error of that hour: `train_uts` was given a multi-task buffer it never routes; fixed in the harness,
